@@ -663,12 +663,19 @@ func (k *vCtl) reqPulseLengths() {
 	r := k.c.R
 	type pl struct{ ns, npre int }
 	p := vPick(r, pl{0, 4}, pl{-5, 3}, pl{16, 0}, pl{16, 16}, pl{16, 20}, pl{16, 2}, pl{k.ns, k.npre}, pl{40, 10}, pl{24, 6}, pl{64, 3}, pl{4, 3},
-		pl{k.ns, k.npre + 1}, pl{k.ns, 3}, pl{k.ns + 8, k.npre}) // also: only one of the two lengths changes
+		pl{k.ns, k.npre + 1}, pl{k.ns, 3}, pl{k.ns + 8, k.npre}, // also: only one of the two lengths changes
+		pl{1200000000, 100}, pl{1 << 31, 8}, pl{1<<40 + 50, 10}) // absurd lengths: refused or not, the server must survive them
+	huge := p.ns > 1<<28
+	if huge {
+		k.c.Cov("absurd_record_lengths_requested", 1)
+	}
 	for rep := 0; rep < 2; rep++ {
 		want := "ok"
 		switch {
 		case p.ns <= 0 || p.npre <= 0:
 			want = "err"
+		case huge && !k.wActive:
+			want = "any"
 		case p.ns == k.ns && p.npre == k.npre:
 			want = "ok"
 		case k.wActive:
@@ -690,11 +697,15 @@ func (k *vCtl) reqPulseLengths() {
 		}
 		var okay bool
 		err, ret := k.do(fmt.Sprintf("ConfigurePulseLengths(nsamp=%d,npre=%d)", p.ns, p.npre), want, func() error { return k.sc.ConfigurePulseLengths(SizeObject{Nsamp: p.ns, Npre: p.npre}, &okay) })
-		if ret && want == "any" && err != nil {
+		if ret && want == "any" && err != nil && !huge {
 			k.lenUnknown = true // the change may have been applied to some channels only
 		}
+		if ret && huge && err == nil {
+			k.lenUnknown = true // (records of that length never complete; what else still fits is no longer predictable)
+			k.hasProj, k.sureProj = map[int]bool{}, map[int]bool{}
+		}
 		// (also while a source is ending itself: a request that still got through has changed the lengths the server compares the next one with)
-		if ret && err == nil && (want == "ok" || want == "any") && !(p.ns == k.ns && p.npre == k.npre) {
+		if ret && err == nil && (want == "ok" || want == "any") && !(p.ns == k.ns && p.npre == k.npre) && !huge {
 			k.ns, k.npre = p.ns, p.npre
 			k.hasProj = map[int]bool{} // projectors sized for the old length no longer fit; the model forgets them conservatively
 		}
